@@ -88,6 +88,7 @@ def cases(ctx):
                 c['version'] = ver
             out.append(c)
     out += gen.multipart_eci_cases(rng, ctx.thorough)
+    out += gen.multisegment_boundary_cases(__import__('random').Random(ctx.seed * 7 + 4), thorough=ctx.thorough)
     out += [enc.random_case(rng, max_len=rng.choice([30, 200, 1200])) for _ in range(2000 if ctx.thorough else 250)]
     return out
 
